@@ -133,8 +133,10 @@ CHECKS = {
             "materialization is handed back with no evaluation; ONE Processor.process call on the class of multi-engine trees "
             "of C07 is write-once too (processing_is_write_once: every payload that was in the store is still there, the "
             "same object; payloads are added only to Materializations of the input tree and to nodes the Processor creates; "
-            "nothing is attached on the database side). Proof (partial): histories of several process calls, process on "
-            "other trees and the SQL engine's payloads are validated by correspondence + oracle, not proved. " + CORR, "", "DESIGN.md 5/C10"),
+            "nothing is attached on the database side), and so is ANY NUMBER of process calls on the same tree, each starting "
+            "in the state the previous one left (repeated_processing_is_write_once: after every call the payloads present "
+            "before the first one are still there, the same objects). Proof (partial): histories mixing process with "
+            "execute, process on other trees and the SQL engine's payloads are validated by correspondence + oracle, not proved. " + CORR, "", "DESIGN.md 5/C10"),
     "C11": (PR, "Lean 4 theorems: the tree-building induction of C17 (slice = window of the target's order, sort on top, refusal of buried unsliced sorts) composed with compile_sound (ORDER BY and OFFSET/LIMIT of the emitted query level) + correspondence incl. execution on SQLite in both scan orders",
             "Machine-checked (Props/C11.lean, rows are ordered lists): a slice applied inside the SQL engine to any raw SQL tree "
             "yields exactly rows [start, stop) of the target's rows in the target's order, a sort yields them stably sorted "
